@@ -1,5 +1,5 @@
 #!/bin/bash
-# usage: mcsize.sh <name> <timeout-s> "<python kwargs overriding mcconf.BASE>"
+# usage: mcsize.sh <name> <timeout-s> "<python kwargs overriding mcconf.BASE>" | mcsize.sh <name> <timeout-s> @C06:quick
 # Sizes one candidate EngineMC instance: prints distinct states / time or the last progress line.
 W=/tmp/w/size; mkdir -p $W
 cd /verif/spec
@@ -7,11 +7,16 @@ python3 - "$3" > $W/$1.cfg <<'PY'
 import sys
 sys.path.insert(0, '/verif/tools')
 import mcconf
-d = mcconf.inst(**eval("dict(%s)" % sys.argv[1]))
+a = sys.argv[1]
+if a.startswith('@'):
+    pid, tier = a[1:].split(':')
+    d = mcconf.INSTANCES[pid][tier][0]
+else:
+    d = mcconf.inst(**eval("dict(%s)" % a, {"mcconf": mcconf, "dict": dict}))
 print(mcconf.cfg_text(d))
 PY
 S=$(date +%s)
-JAVA_TOOL_OPTIONS="-Xss1g -Xmx16g -DTLA-Library=/verif/spec/mon" timeout $2 tlc -workers ${WORKERS:-14} -noGenerateSpecTE -metadir $W/meta-$1 -cleanup -config $W/$1.cfg EngineConf.tla > $W/$1.out 2>&1
+JAVA_TOOL_OPTIONS="-Xss1g -Xmx12g -DTLA-Library=/verif/spec/mon" timeout $2 tlc -workers ${WORKERS:-12} -noGenerateSpecTE -metadir $W/meta-$1 -cleanup -config $W/$1.cfg EngineConf.tla > $W/$1.out 2>&1
 RC=$?; E=$(date +%s)
-echo "$1 rc=$RC $((E-S))s $(grep -E 'distinct states found, 0 states|is violated' $W/$1.out | head -2 | tr '\n' ' ') $(grep Progress $W/$1.out | tail -1 | sed 's/.*: //' | cut -c1-120)"
+echo "$1 rc=$RC $((E-S))s $(grep -E 'distinct states found, 0 states|is violated' $W/$1.out | head -2 | tr '\n' ' ') $(grep Progress $W/$1.out | tail -1 | sed 's/.*: //' | cut -c1-130)"
 rm -rf $W/meta-$1
